@@ -153,7 +153,7 @@ var c03Keys = []string{"a", "b", "c", "d", "e", "f", "g", "zz", "k1", "10", "9",
 func genMapDesc(t *rapid.T, depth int, label string) *E {
 	n := rapid.IntRange(2, 8).Draw(t, label+"n")
 	keys := rapid.Permutation(c03Keys).Draw(t, label+"keys")[:n]
-	typ := rapid.SampledFrom([]string{"", "", "map[string]int", "map[string]string", "map[int]string", "map[iface]", "map[int64]string", "map[uint64]string", "map[mixed]", "map[mixed2]"}).Draw(t, label+"typ")
+	typ := rapid.SampledFrom([]string{"", "", "map[string]int", "map[string]string", "map[int]string", "map[iface]", "map[int64]string", "map[uint64]string", "map[mixed]", "map[mixed2]", "map[structkey]", "map[arraykey]"}).Draw(t, label+"typ")
 	vals := make([]*E, n)
 	for i := range vals {
 		switch {
